@@ -146,6 +146,54 @@ def _chk_c12(model, xs, cs, key):
                 dd = jnp.maximum(dd, _maxdiff(a, b))
         out["bij_diff"] = dd
 
+    # frozen leaves of a transformer are not parameterised by coupling / autoregressive conditioners:
+    # whatever the conditioner outputs, they equal the prototype's (constructor at the zero vector)
+    from flowjax import bijections as B
+
+    nodes = []
+    _walk(um, 0, nodes)
+    cp = jnp.zeros(())
+    n_cp = 0
+    for node, nb in nodes:
+        if not isinstance(node, (B.Coupling, B.MaskedAutoregressive)) or getattr(node, "transformer_constructor", None) is None:
+            continue
+
+        def per(layer):
+            ds = []
+            for i in range(xs.shape[0]):
+                ci = None if cs is None else cs[i]
+                if isinstance(layer, B.Coupling):
+                    net = getattr(layer, "conditioner", None)
+                    d0 = layer.untransformed_dim
+                    nn_in = xs[i][:d0] if ci is None else jnp.hstack((xs[i][:d0], ci))
+                    n_out = layer.dim - d0
+                else:
+                    net = getattr(layer, "masked_autoregressive_mlp", None)
+                    nn_in = xs[i] if ci is None else jnp.hstack((xs[i], ci))
+                    n_out = layer.shape[-1]
+                if net is None:
+                    continue
+                tp = jnp.reshape(net(nn_in), (n_out, -1))
+                built = eqx.filter_vmap(layer.transformer_constructor)(tp)
+                proto = eqx.filter_vmap(layer.transformer_constructor)(jnp.zeros_like(tp))
+                is_nt2 = lambda n: isinstance(n, NonTrainable)  # noqa: E731
+                fb = [n for n in jax.tree_util.tree_leaves(built, is_leaf=is_nt2) if is_nt2(n)]
+                fp = [n for n in jax.tree_util.tree_leaves(proto, is_leaf=is_nt2) if is_nt2(n)]
+                for a, b in zip(fb, fp, strict=True):
+                    for la, lb in zip(jax.tree_util.tree_leaves(a), jax.tree_util.tree_leaves(b), strict=True):
+                        if eqx.is_inexact_array(la):
+                            ds.append(_maxdiff(la, lb))
+            return {"d": jnp.stack(ds) if ds else jnp.zeros((0,)), "n": jnp.asarray(len(ds))}
+
+        try:
+            rr = _vm(per, nb)(node)
+            cp = jnp.maximum(cp, jnp.max(rr["d"], initial=0.0))
+            n_cp += 1
+        except AttributeError:
+            pass
+    out["cond_param_frozen_diff"] = cp
+    out["n_cond_param_layers"] = jnp.asarray(n_cp)
+
     # exactly zero gradient on every frozen leaf
     def total(m):
         if has_lp:
@@ -554,6 +602,9 @@ def oracle_c12(world, result):
         for k, nm in (("lp_diff", "log_prob"), ("sample_diff", "sample"), ("salp_diff", "sample_and_log_prob"), ("bij_diff", "bijection methods")):
             if k in r and float(r[k]) > 1e-6:
                 V.append({"clause": "c12.method_differs_after_unwrap", "detail": f"{label}: {nm} differs by {float(r[k])} between the wrapped model and unwrap(model)"})
+        if float(r.get("cond_param_frozen_diff", 0.0)) != 0.0:
+            V.append({"clause": "c12.frozen_transformer_leaf_parameterised", "detail": f"{label}: a non-trainable leaf of a coupling/autoregressive transformer changes with the conditioner output (max diff {float(r['cond_param_frozen_diff'])})"})
+        P["cond_param_layers_checked"] = P.get("cond_param_layers_checked", 0) + int(r.get("n_cond_param_layers", 0))
         if float(r["frozen_grad_max"]) != 0.0:
             V.append({"clause": "c12.frozen_grad_nonzero", "detail": f"{label}: a non-trainable leaf received gradient of magnitude {float(r['frozen_grad_max'])}"})
         P["frozen_grad_leaves_checked"] = P.get("frozen_grad_leaves_checked", 0) + int(r["n_frozen_grad_leaves"])
